@@ -3,6 +3,7 @@
 cd "$(dirname "$0")"
 export CARGO_NET_OFFLINE=true
 set -e
+python3 -c "import sys; sys.path.insert(0, 'tools'); from gv import tables; print(tables.regenerate())"
 cp -n /repo/Cargo.lock harness/Cargo.lock 2>/dev/null || true
 (cd harness && RUSTFLAGS="--cfg guard_verif" CARGO_TARGET_DIR=/verif/.cache/target cargo +1.77.2 build --offline) 
 (cd /repo && CARGO_TARGET_DIR=/verif/.cache/target-cli cargo +1.77.2 build --offline -p cfn-guard --bin cfn-guard)
